@@ -256,3 +256,129 @@ Definition sorted_delete (osz : N) (idx : list N) (ioff : N) (sdx : list N) (key
         let '(e, sdx') := search_mark true osz sdx (file_size sdx) key in
         (e, idx', ioff + entry_size osz, sdx')
   end.
+
+(* ====================================================================== *)
+(* Appended for the C07 audit (items 1-3).  Nothing above is changed.      *)
+(* ====================================================================== *)
+
+(* ---------- reopening a SortedFileNeedleMap (NewSortedFileNeedleMap on existing files) ----------
+   isSortedFileFresh: the .sdx is kept when its mtime is after the .idx's, otherwise it is
+   regenerated from the .idx (WriteSortedFileFromIdx: tombstoned keys disappear).  The mtime
+   comparison is the input [fresh].  indexFileOffset becomes the .idx size. *)
+Definition sorted_reopen (fresh : bool) (osz : N) (idx sdx : list N) : N * list N :=
+  (file_size idx, if fresh then sdx else write_sorted_from_idx osz idx).
+
+(* ---------- ec.decode (VolumeEcShardsToVolume) and the mount of the decoded volume ----------
+   FindDatFileSize + WriteDatFile + WriteIdxFileFromEcIndex, then Volume.load:
+   CheckAndFixVolumeDataIntegrity (volume_checking.go) and doLoading (needle_map_memory.go),
+   then Volume.readNeedle.  Index level: the .dat is described by its records (start in offset
+   units, id, Size field of the header) and its length in bytes. *)
+(* needle.GetActualSize(size, Version3): header 16 + size + checksum 4 + timestamp 8 + padding 1..8 *)
+Definition dm_span (size : Z) : N :=
+  let raw := 16 + Z.to_N size + 4 + 8 in raw + (8 - raw mod 8).
+(* offset.ToActualOffset() + GetActualSize(size, version) *)
+Definition dm_stop (e : entry) : N := e_off e * 8 + dm_span (e_size e).
+(* FindDatFileSize: the largest stop offset of the entries that are not deleted *)
+Definition dm_dat_size_es (es : list entry) : N :=
+  fold_left (fun acc e => if size_is_deleted (e_size e) then acc
+                          else if acc <? dm_stop e then dm_stop e else acc) es 0.
+Definition dm_dat_size (osz : N) (ecx : list N) : N := dm_dat_size_es (walk osz ecx).
+
+Record dm_rec := { dm_off : N; dm_key : N; dm_size : Z }.
+Definition dm_rec_at (recs : list dm_rec) (off : N) : option dm_rec :=
+  find (fun r => dm_off r =? off) recs.
+(* WriteDatFile(base, datSize): the first datSize bytes of the encoded .dat *)
+Definition dm_keep (recs : list dm_rec) (dsz : N) : list dm_rec :=
+  filter (fun r => dm_off r * 8 <? dsz) recs.
+
+(* verifyNeedleIntegrity(datFile, Version3, offset, key, size) on a .dat of [len] bytes *)
+Inductive dm_vres :=
+| DmOk (len' : N)     (* nil; the .dat now has len' bytes (truncated behind the record when longer) *)
+| DmEOF               (* io.EOF *)
+| DmMismatch          (* ErrorSizeMismatch *)
+| DmErr.              (* any other error *)
+Definition dm_verify (recs : list dm_rec) (len off : N) (size : Z) : dm_vres :=
+  let o := off * 8 in
+  if len <? o + 16 then DmEOF                         (* ReadNeedleHeader: short read *)
+  else match dm_rec_at recs off with
+       | None => DmErr                                (* no record starts there (not reached from a consistent index) *)
+       | Some r =>
+           if negb (dm_size r =? size)%Z then DmMismatch
+           else if len <? o + 16 + Z.to_N size + 4 + 8 then DmEOF      (* the timestamp ReadAt *)
+           else
+             let tail := o + dm_span size in
+             if len =? tail then DmOk len             (* n.Id is NOT compared with the index key on this path *)
+             else if tail <? len then DmOk tail       (* "Truncate %s from %d bytes to %d bytes!" *)
+             else DmErr                               (* shorter than the record: ReadData fails *)
+       end.
+
+(* the loop of CheckAndFixVolumeDataIntegrity over the last 10 entries; [res] = the entries from
+   the last one backwards, [pos] = number of entries before the head of [res];
+   result: (new .dat length, number of index entries kept = healthyIndexSize / entry size) *)
+Fixpoint dm_cf_loop (fuel : nat) (res : list entry) (pos : N) (recs : list dm_rec) (len healthy : N) : N * N :=
+  match fuel, res with
+  | S f, e :: r =>
+      if e_off e =? 0 then (len, healthy)             (* doCheckAndFixVolumeData: offset.IsZero() -> nil -> break *)
+      else
+        let size := if (e_size e <? 0)%Z then 0%Z else e_size e in
+        match dm_verify recs len (e_off e) size with
+        | DmEOF => dm_cf_loop f r (pos - 1) recs len pos
+        | DmMismatch => dm_cf_loop f r (pos - 1) recs len healthy
+        | DmOk len' => (len', healthy)
+        | DmErr => (len, healthy)
+        end
+  | _, _ => (len, healthy)
+  end.
+Definition dm_check_fix (es : list entry) (recs : list dm_rec) (len : N) : N * N :=
+  let n := N.of_nat (length es) in
+  dm_cf_loop 10 (rev es) (n - 1) recs len n.
+
+(* doLoading (LoadCompactNeedleMap): !offset.IsZero() && size.IsValid() -> Set, else Delete *)
+Definition dm_nm_step (m : omap) (e : entry) : omap :=
+  if negb (e_off e =? 0) && size_is_valid (e_size e) then om_put m (e_key e) (e_off e, e_size e)
+  else om_del m (e_key e).
+Definition dm_nm_load (es : list entry) : omap := fold_left dm_nm_step es [].
+
+(* Volume.load of the decoded files: None = "volume not initialized" (no super block);
+   otherwise (needle map, .dat length, index entries kept) *)
+Definition dm_mount (osz : N) (idx : list N) (recs : list dm_rec) (len : N) : option (omap * N * N) :=
+  if len <? 8 then None
+  else
+    let es := walk osz idx in
+    let '(len', h) := dm_check_fix es recs len in
+    Some (dm_nm_load (firstn (N.to_nat h) es), len', h).
+
+(* what a read returns: the record at [off] with Size [size], or an error class *)
+Inductive dm_rres := DmData (off : N) (size : Z) | DmNotFound | DmDeleted | DmReadErr.
+(* Volume.readNeedle on the mounted volume *)
+Definition dm_read (m : omap) (len : N) (k : N) : dm_rres :=
+  match om_get m k with
+  | None => DmNotFound
+  | Some (off, size) =>
+      if off =? 0 then DmNotFound
+      else if size_is_deleted size then DmDeleted
+      else if (size =? 0)%Z then DmData off 0%Z
+      else if off * 8 + dm_span size <=? len then DmData off size
+      else DmReadErr                                  (* ReadData: EOF *)
+  end.
+(* Store.ReadEcShardNeedle on the EC volume (all shards local): LocateEcShardNeedle error,
+   size.IsDeleted() -> ErrorDeleted, else the record bytes from the shards *)
+Definition dm_ec_read (osz : N) (ecx : list N) (k : N) : dm_rres :=
+  match find_from_ecx osz ecx k with
+  | SFound _ off size => if size_is_deleted size then DmDeleted else DmData off size
+  | SNotFound => DmNotFound
+  | SReadErr => DmReadErr
+  end.
+
+(* ec.decode of (.ecx, .ecj, shards of a .dat with records [recs]) followed by the mount *)
+Definition dm_decode_mount (osz : N) (ecx ecj : list N) (recs : list dm_rec) : option (omap * N * N) :=
+  let dsz := dm_dat_size osz ecx in
+  dm_mount osz (write_idx_from_ec osz ecx ecj) (dm_keep recs dsz) dsz.
+
+(* the trigger of finding C07 k=0: the integrity check of the mount changes the decoded files
+   (truncates the .dat behind the record of one of the last index entries, or drops index entries) *)
+Definition dm_cuts (osz : N) (ecx ecj : list N) (recs : list dm_rec) : bool :=
+  let dsz := dm_dat_size osz ecx in
+  let es := walk osz (write_idx_from_ec osz ecx ecj) in
+  let '(len', h) := dm_check_fix es (dm_keep recs dsz) dsz in
+  negb ((len' =? dsz) && (h =? N.of_nat (length es))).
